@@ -281,6 +281,11 @@ impl B {
   }
 
   fn with_clause(&mut self, attr: u8) -> Option<String> {
+    if attr == 6 {
+      // an empty attribute clause
+      self.out.push_str(" with {}");
+      return None;
+    }
     let a = ATTR_TYPES[attr as usize % ATTR_TYPES.len()];
     if let Some(a) = a {
       self.out.push_str(&format!(" with {{ type: \"{a}\" }}"));
@@ -540,7 +545,12 @@ impl B {
         } else {
           self.lit(spec_of(*spec), *q)
         };
-        let a = ATTR_TYPES[*attr as usize % ATTR_TYPES.len()];
+        let a = if *attr == 6 {
+          self.out.push_str(", { with: {} }");
+          None
+        } else {
+          ATTR_TYPES[*attr as usize % ATTR_TYPES.len()]
+        };
         if let Some(a) = a {
           self.out.push_str(&format!(", {{ with: {{ type: \"{a}\" }} }}"));
         }
@@ -835,14 +845,14 @@ fn leaf_piece() -> impl Strategy<Value = Piece> {
   let types = || proptest::option::weighted(0.2, (0..SPECS.len() as u8, 0..6u8));
   prop_oneof![
     4 => (0..TRIVIA.len() as u8).prop_map(Piece::Trivia),
-    3 => (s(), quote(), 0..6u8, types(), 0..4u8).prop_map(|(spec, q, attr, types, form)| Piece::Import { spec, q, attr, types, form }),
+    3 => (s(), quote(), 0..7u8, types(), 0..4u8).prop_map(|(spec, q, attr, types, form)| Piece::Import { spec, q, attr, types, form }),
     1 => (s(), quote()).prop_map(|(spec, q)| Piece::SideEffect { spec, q }),
     2 => (s(), quote(), 0..3u8).prop_map(|(spec, q, star)| Piece::ExportFrom { spec, q, star }),
     2 => (s(), quote(), any::<bool>()).prop_map(|(spec, q, export)| Piece::ImportType { spec, q, export }),
     2 => (s(), quote(), any::<bool>()).prop_map(|(spec, q, nested)| Piece::ImportTypeExpr { spec, q, nested }),
     1 => (s(), quote(), any::<bool>()).prop_map(|(spec, q, export)| Piece::ImportEquals { spec, q, export }),
     1 => (s(), proptest::option::weighted(0.4, s())).prop_map(|(spec, inner)| Piece::DeclareModule { spec, inner }),
-    3 => (s(), quote(), proptest::bool::weighted(0.2), 0..6u8, types(), 0..4u8, 0..5u8).prop_map(|(spec, q, template, attr, types, ctx, phase)| Piece::Dynamic { spec, q, template, attr, types, ctx, phase }),
+    3 => (s(), quote(), proptest::bool::weighted(0.2), 0..7u8, types(), 0..4u8, 0..5u8).prop_map(|(spec, q, template, attr, types, ctx, phase)| Piece::Dynamic { spec, q, template, attr, types, ctx, phase }),
     1 => (0..3u8, 0..4u8).prop_map(|(prefix, ctx)| Piece::DynamicTemplate { prefix, ctx }),
     1 => Just(Piece::DynamicOpaque),
     1 => (s(), quote(), 0..4u8).prop_map(|(spec, q, ctx)| Piece::Require { spec, q, ctx }),
